@@ -69,6 +69,13 @@ def clientSetupTarget (base : Url) (ctl : Str) : Option Str :=
   | .url mu => some (requestTarget (some mu))
   | _ => none
 
+/-- How a peer reads the authority of an absolute URL on a request line: after `scheme://`, up to the
+first of `/ ? #`. -/
+def targetAuthority (t : Str) : Option Str :=
+  match getScheme t with
+  | some (_, 47 :: 47 :: r) => some (r.takeWhile fun c => !isDelim c)
+  | _ => none
+
 /-! ## theorems -/
 
 /-- **DESCRIBE / ANNOUNCE / RECORD / PAUSE on the original URL.**  The server parses the request line the
@@ -173,5 +180,53 @@ theorem record_media_lookup {u : Url} (h : InScope u) (hq : u.forceQuery = false
       hnc.wf.extend (by rw [List.all_append, digits_plain, trackTag_eq]; decide) (by rw [trackTag_eq]; simp)
     exact serverURL_toStr hw
   · exact findMediaByURL_controls h hq hi
+
+/-- **No credentials on the wire.**  Whatever user-info a URL value carries, the request target the client
+writes for it (`MarshalTo`: `CloneWithoutCredentials().String()`) has as authority exactly the escaped
+host, and that text contains no `@`.  (`u` as the parser and the client produce URL values: scheme rtsp /
+rtsps, escaped path empty or beginning with `/`, empty exactly when the decoded path is.) -/
+theorem no_credentials_on_wire (u : Url) (hs : IsScheme u.scheme)
+    (hp : u.epath = [] ∨ u.epath.head? = some 47) (he : u.path = [] ↔ u.epath = []) :
+    (∀ a, targetAuthority (requestTarget (some u)) = some a → a = escape .host u.host) ∧
+    (64 : UInt8) ∉ escape .host u.host := by
+  refine ⟨?_, fun m => (escape_host_clean u.host 64 m).1 rfl⟩
+  intro a ha
+  rw [requestTarget_some] at ha
+  unfold targetAuthority Url.toStr Url.withoutCredentials at ha
+  simp only [Bool.false_and, Bool.false_eq_true, if_false, Option.isSome_none, Bool.or_false, userText,
+    List.nil_append, List.append_assoc, List.singleton_append, List.cons_append] at ha
+  rw [getScheme_scheme hs] at ha
+  -- is "//" written?
+  by_cases hw : (!u.host.isEmpty || !u.path.isEmpty) = true
+  · simp only [hw, if_true, List.cons_append, List.nil_append] at ha
+    simp only [Option.some.injEq] at ha
+    rw [← ha]
+    apply takeWhile_noDelim (fun x hx => (escape_host_clean u.host x hx).2)
+    -- what follows the host text is empty or starts with a delimiter
+    rcases hp with hp | hp
+    · rw [hp]
+      simp only [List.isEmpty_nil, Bool.not_true, Bool.false_and, Bool.false_eq_true, if_false, List.nil_append]
+      split
+      · exact Or.inr ⟨63, _, rfl, by decide⟩
+      · exact Or.inl rfl
+    · obtain ⟨e', he'⟩ : ∃ e', u.epath = 47 :: e' := by
+        cases hh : u.epath with
+        | nil => simp [hh] at hp
+        | cons c r => simp [hh] at hp; exact ⟨r, by rw [hp]⟩
+      rw [he']
+      simp only [List.head?_cons, bne_self_eq_false, Bool.false_and, Bool.and_false, Bool.false_eq_true, if_false,
+        List.nil_append, List.cons_append]
+      exact Or.inr ⟨47, _, rfl, by decide⟩
+  · -- no host and no path: "scheme:" followed by nothing or by "?query": there is no authority
+    have hw' : u.host.isEmpty = true ∧ u.path.isEmpty = true := by
+      simpa using hw
+    have hpe : u.epath = [] := he.1 (by simpa using hw'.2)
+    have hh : u.host = [] := by simpa using hw'.1
+    have hpth : u.path = [] := by simpa using hw'.2
+    simp only [hpe, hh, hpth, escape, List.flatMap_nil, List.nil_append,
+      List.isEmpty_nil, Bool.not_true, Bool.false_and, Bool.or_self, Bool.false_eq_true, if_false] at ha
+    by_cases hq : (u.forceQuery || !u.rawQuery.isEmpty) = true
+    · simp [hq] at ha
+    · simp [hq] at ha
 
 end Rtsp.Url
